@@ -518,9 +518,23 @@ var mutations = []mutation{
 		if tt(in) == nil || len(tt(in).TrialParameters) == 0 {
 			return false
 		}
-		tt(in).TrialParameters[r.Intn(len(tt(in).TrialParameters))].Reference = kit.Pick(r, []string{"nope", "${trialSpec.Name}", "${trialSpec.Namespace}",
+		ref := kit.Pick(r, []string{"nope", "${trialSpec.Name}", "${trialSpec.Namespace}",
 			"${trialSpec.Kind}", "${trialSpec.APIVersion}", "${trialSpec.Labels[app]}", "${trialSpec.Labels[missing]}", "${trialSpec.Annotations[note]}",
-			"${trialSpec.Annotations[zz]}", "${trialSpec.Foo}", "${trialSpec.Labels}", "x${trialSpec.Name}y", "${trialSpec.Foo[bar]}", "${trialSpec.}", "lr", "momentum", "extra"})
+			"${trialSpec.Annotations[zz]}", "${trialSpec.Foo}", "${trialSpec.Labels}", "x${trialSpec.Name}y", "${trialSpec.name}", "${trialSpec.kind}", "${trialSpec.labels[app]}", "${trialSpec.Foo[bar]}", "${trialSpec.}", "lr", "momentum", "extra"})
+		i := r.Intn(len(tt(in).TrialParameters))
+		if strings.HasPrefix(ref, "${trialSpec.") {
+			// prefer to replace a metadata reference, so that no search-space parameter loses its only reference
+			var metas []int
+			for j, tp := range tt(in).TrialParameters {
+				if strings.HasPrefix(tp.Reference, "${trialSpec.") {
+					metas = append(metas, j)
+				}
+			}
+			if len(metas) > 0 {
+				i = metas[r.Intn(len(metas))]
+			}
+		}
+		tt(in).TrialParameters[i].Reference = ref
 		return true
 	}},
 	{"tparam:name-unused", func(r *rand.Rand, in *c14Input) bool {
@@ -543,7 +557,7 @@ var mutations = []mutation{
 			return false
 		}
 		tt(in).TrialParameters = append(tt(in).TrialParameters, expv1.TrialParameterSpec{Name: kit.Pick(r, []string{"extraName", "learningRate", "trialNs"}),
-			Reference: kit.Pick(r, []string{"extra", "${trialSpec.Namespace}", "lr", "${trialSpec.Labels[app]}"})})
+			Reference: kit.Pick(r, []string{"extra", "${trialSpec.Namespace}", "lr", "${trialSpec.Labels[app]}", "${trialSpec.namespace}", "${trialSpec.APIversion}", "${trialSpec.Labels[missing]}"})})
 		if r.Intn(2) == 0 {
 			n := tt(in).TrialParameters[len(tt(in).TrialParameters)-1].Name
 			editTemplate(in, func(obj map[string]interface{}) {
@@ -759,6 +773,11 @@ func (c14) Gen(r *rand.Rand, i, n int) any {
 			relevant = append(relevant, k, k, k, k)
 		case m.name == "params:distribution", m.name == "params:feasible-shape", strings.HasPrefix(m.name, "tpl:"):
 			relevant = append(relevant, k)
+		case m.name == "tparam:reference":
+			// the classification of references (search-space parameter / trial metadata) is where validator and generator must agree
+			relevant = append(relevant, k, k, k, k, k, k)
+		case m.name == "tparam:add":
+			relevant = append(relevant, k, k)
 		}
 	}
 	nm := []int{0, 1, 1, 1, 2, 2, 3}[r.Intn(7)]
@@ -874,7 +893,12 @@ func domainKey(prop string, e *expv1.Experiment, w world) string {
 					bad = true
 				}
 			default:
-				bad = true
+				// an unknown key is only admitted (by the unchanged validator) when the reference is also a parameter name
+				for _, p := range e.Spec.Parameters {
+					if p.Name == tp.Reference {
+						bad = true
+					}
+				}
 			}
 		}
 		if k := kit.KeyIf(prop, "unresolvable-trial-metadata", bad); k != "" {
